@@ -20,7 +20,7 @@ def child_main(job, ask):
     steps = []
     cfg = None
     if mode == "generate":
-        gen = Generator(job["seed"], job["batch"], job.get("tier", "quick"))
+        gen = Generator(job["seed"], job["batch"], job.get("tier", "quick"), job)
         cfg = gen.describe_config()
         while len(steps) < MAX_STEPS:
             st = gen.next(ex)
@@ -43,6 +43,7 @@ def child_main(job, ask):
     judged_after = ex.stats.get("judged_after_adversarial_event", 0)
     cold_then_warm = _cold_and_warm(ex.events)
     report = {
+        "script_note": getattr(gen, "script_note", None) if mode == "generate" else None,
         "seed": job.get("seed"), "batch": job.get("batch"), "config": cfg,
         "steps": steps, "events": ex.events if job.get("want_events", True) else None,
         "history_digest": hist, "log_digest": logd,
